@@ -129,6 +129,8 @@ class StmtMixin:
             return py(PyModule(r[1]), "module")
         if kind == "extern":
             _, modname, attr = r
+            if attr == "TYPE_CHECKING":
+                return const_tv(False)
             if attr[:1].isupper() and attr not in ("TYPE_CHECKING",):
                 if attr == "OrderedDict":
                     return py(Builtin("dict"), "builtin")
@@ -339,11 +341,47 @@ class StmtMixin:
     def st_Continue(self, s, frame):
         raise ContinueSig()
 
+    def narrow(self, test, taken, frame):
+        """isinstance(x, C) decided for a plain variable: remember the class as the
+        variable's type hint in that branch (the hint only selects method tables and
+        schemas; the class fact itself is already in the path condition)"""
+        neg = False
+        t = test
+        while isinstance(t, ast.UnaryOp) and isinstance(t.op, ast.Not):
+            neg = not neg
+            t = t.operand
+        if not (isinstance(t, ast.Call) and isinstance(t.func, ast.Name) and t.func.id == "isinstance"
+                and len(t.args) == 2 and isinstance(t.args[0], ast.Name) and isinstance(t.args[1], ast.Name)):
+            return
+        if taken == neg:
+            return
+        cur = frame.lookup(t.args[0].id)
+        cname = t.args[1].id
+        if cur is None or cur.k != "val" or cur.hint:
+            return
+        hint = {"str": "str", "int": "int", "list": "list", "dict": "dict", "set": "set"}.get(cname)
+        if hint is None:
+            from .contracts import SCHEMAS
+
+            if cname in SCHEMAS or cname in CLASSES.by_name:
+                hint = "obj:" + cname
+        if hint:
+            ntv = TV("val", cur.r, hint)
+            self.bind(t.args[0].id, ntv, frame)
+            self.apply_hint_facts(ntv)
+            if hint.startswith("obj:"):
+                self.schema_facts_lazy(ntv, hint)
+
+    def schema_facts_lazy(self, tv, hint):
+        return
+
     def st_If(self, s, frame):
         c = self.eval(s.test, frame)
         if self.decide(self.truthy(c), f"if@{s.lineno}"):
+            self.narrow(s.test, True, frame)
             self.exec_block(s.body, frame)
         else:
+            self.narrow(s.test, False, frame)
             self.exec_block(s.orelse, frame)
 
     def st_Assert(self, s, frame):
@@ -395,9 +433,23 @@ class StmtMixin:
 
     def st_Try(self, s, frame):
         sig = None
+        names = set()
+        for h in s.handlers:
+            t = h.type
+            if t is None:
+                names.add("*")
+            else:
+                for el in (t.elts if isinstance(t, ast.Tuple) else [t]):
+                    names.add(el.id if isinstance(el, ast.Name) else getattr(el, "attr", "*"))
+        if not hasattr(self, "try_stack"):
+            self.try_stack = []
         try:
             try:
-                self.exec_block(s.body, frame)
+                self.try_stack.append(names)
+                try:
+                    self.exec_block(s.body, frame)
+                finally:
+                    self.try_stack.pop()
             except PyRaise as pr:
                 h = self.match_handler(pr, s.handlers, frame)
                 if h is None:
